@@ -24,6 +24,15 @@ def sh(cmd, cwd=None, timeout=1800):
     return p.returncode, p.stdout
 
 
+def patch_of(d, head=True):
+    """the patch as delivered applies to the commit the seed was written for; patch.rebased.diff (if present) is the same change
+    rebased onto the current /repo HEAD (needed after later fix: commits touched the same lines)."""
+    r = os.path.join(d, 'patch.rebased.diff')
+    if head and os.path.exists(r):
+        return r
+    return os.path.join(d, 'patch.diff')
+
+
 def demo_cmd(meta, include, src, out):
     build = meta.get('demo_build', '')
     flags = ' '.join(t for t in build.split() if t.startswith('-D') or t.startswith('-std'))
@@ -33,6 +42,7 @@ def demo_cmd(meta, include, src, out):
 
 
 def verify(d, base=None):
+    d = os.path.abspath(d)
     meta = json.load(open(os.path.join(d, 'meta.json')))
     wt = '/tmp/seedverify-%d' % os.getpid()
     rc, out = sh('git -C %s worktree add -q --detach %s %s' % (REPO, wt, base or 'HEAD'))
@@ -44,7 +54,7 @@ def verify(d, base=None):
         demo = os.path.join(d, 'demo.cpp')
         rc, out = sh(demo_cmd(meta, wt + '/include', demo, wt + '/demo0') + ' && ' + wt + '/demo0', cwd=wt)
         res['demo passes without the patch'] = rc == 0
-        rc, out = sh('git apply %s' % os.path.join(d, 'patch.diff'), cwd=wt)
+        rc, out = sh('git apply %s' % patch_of(d, base is None), cwd=wt)
         res['patch applies'] = rc == 0
         if rc:
             print(out[-500:])
@@ -67,13 +77,14 @@ def verify(d, base=None):
 
 
 def check(d, ids=None):
+    d = os.path.abspath(d)
     meta = json.load(open(os.path.join(d, 'meta.json')))
     ids = ids or [meta['property']]
     rc, out = sh('git -C %s status --porcelain --untracked-files=no' % REPO)
     if out.strip():
         print('refusing: /repo has uncommitted changes')
         return None
-    rc, out = sh('git -C %s apply %s' % (REPO, os.path.join(d, 'patch.diff')))
+    rc, out = sh('git -C %s apply %s' % (REPO, patch_of(d)))
     if rc:
         print('patch does not apply to /repo HEAD: ' + out[-300:])
         return None
